@@ -126,7 +126,13 @@ func sanitize(s string) string {
 func (c *TermCtx) Fresh(prefix string, sort Sort) *Term {
 	prefix = sanitize(prefix)
 	c.fresh[prefix]++
-	return c.Sym(fmt.Sprintf("%s!%d", prefix, c.fresh[prefix]), sort)
+	for {
+		name := fmt.Sprintf("%s!%d", prefix, c.fresh[prefix])
+		if _, exists := c.syms[name]; !exists {
+			return c.Sym(name, sort)
+		}
+		c.fresh[prefix]++
+	}
 }
 
 func (c *TermCtx) BVar(name string, sort Sort) *Term {
